@@ -428,6 +428,32 @@ fn composite(f: &str) -> Result<(), String> {
     }
 }
 
+/// Decoding into locked containers (serde): the value is dropped before returning.
+fn deserialize(f: &str) -> Result<(), String> {
+    use dryoc::protected::{HeapByteArray, Locked, LockedBytes};
+    type LK32 = Locked<HeapByteArray<32>>;
+    type LKP = dryoc::dryocbox::protected::LockedKeyPair;
+    let arr: Vec<u8> = (1..=32u8).collect();
+    let long: Vec<u8> = (0..40u8).map(|i| i.wrapping_mul(7) | 1).collect();
+    let json_seq = |v: &[u8]| serde_json::to_string(v).unwrap();
+    fn e<T, E: std::fmt::Display>(r: Result<T, E>) -> Result<(), String> { r.map(|v| drop(v)).map_err(|e| e.to_string()) }
+    match f {
+        "json seq -> Locked<HeapByteArray<32>>" => e(serde_json::from_str::<LK32>(&json_seq(&arr))),
+        "bincode bytes -> Locked<HeapByteArray<32>>" => e(bincode::deserialize::<LK32>(&bincode::serialize(&serde_bytes_like(&arr)).unwrap())),
+        "json seq -> LockedBytes" => e(serde_json::from_str::<LockedBytes>(&json_seq(&long))),
+        "bincode bytes -> LockedBytes" => e(bincode::deserialize::<LockedBytes>(&bincode::serialize(&serde_bytes_like(&long)).unwrap())),
+        "json -> LockedKeyPair" => { let j = format!("{{\"public_key\":{},\"secret_key\":{}}}", json_seq(&arr), json_seq(&arr)); e(serde_json::from_str::<LKP>(&j)) }
+        "bincode -> LockedKeyPair" => { let mut b = bincode::serialize(&serde_bytes_like(&arr)).unwrap(); let b2 = b.clone(); b.extend(b2); e(bincode::deserialize::<LKP>(&b)) }
+        _ => Err(format!("HARNESS: unknown decoder {}", f)),
+    }
+}
+/// bincode's encoding of a byte string: u64 length, then the bytes (what `serialize_bytes` writes)
+struct BytesLike(Vec<u8>);
+fn serde_bytes_like(v: &[u8]) -> BytesLike { BytesLike(v.to_vec()) }
+impl serde::Serialize for BytesLike {
+    fn serialize<S: serde::Serializer>(&self, s: S) -> Result<S::Ok, S::Error> { s.serialize_bytes(&self.0) }
+}
+
 pub fn run_case(case: &Value, probe: bool, progress: *mut u32) -> Vec<Value> {
     let mut fails: Vec<Value> = vec![];
     let steps = match case.as_array() {
@@ -447,6 +473,15 @@ pub fn run_case(case: &Value, probe: bool, progress: *mut u32) -> Vec<Value> {
     // Some(reason) once the code's allocation behaviour no longer follows the model: from then on only the
     // model-independent oracles decide (type state vs kernel, wipe at release, residue at the end)
     let mut drift: Option<Value> = None;
+    // PROT_MODE=mlockall: every page of the process is locked (mlockall(MCL_CURRENT | MCL_FUTURE)), as in a daemon that pins
+    // itself in RAM.  Page states then say nothing about the library; only the wipe-before-release oracles of C15 are active.
+    let wipe_only = std::env::var("PROT_MODE").map(|v| v == "mlockall").unwrap_or(false);
+    if wipe_only {
+        if unsafe { libc::mlockall(libc::MCL_CURRENT | libc::MCL_FUTURE) } != 0 {
+            return vec![json!({"key": "HARNESS: mlockall refused"})];
+        }
+        drift = Some(json!({"what": "mlockall mode"}));
+    }
     let mut nrel_seen = 0usize;
     let mut result_drift = false;
     // where the bytes of each handle were last seen (a no-access region offers no view; its pages are still judged)
@@ -530,6 +565,22 @@ pub fn run_case(case: &Value, probe: bool, progress: *mut u32) -> Vec<Value> {
                     Ok(()) => Ok(Ok(())),
                     Err(p) => Err(p),
                 }
+            }
+            "deserialize" => {
+                // transient allocations of the decoder are not part of the model: each must have been released, wiped
+                let f = sval(op, 2).to_string();
+                let (na, nr) = (NALLOC.load(Ordering::SeqCst), NREL.load(Ordering::SeqCst));
+                let r = catch(move || deserialize(&f));
+                let (al2, rl2) = (allocs(), rels());
+                for (a, sz) in al2.iter().skip(na) {
+                    match rl2.iter().skip(nr).find(|x| x.0 == *a) {
+                        None => fail!("allocation never released after the last drop", {"decoder": sval(op, 2), "size": sz}),
+                        Some(x) => if x.2 != 0 { fail!("released memory not wiped: non-zero bytes reach the allocator by deserialize", {"decoder": sval(op, 2), "size": x.1, "nonzero_bytes": x.2}); },
+                    }
+                }
+                NALLOC.store(na, Ordering::SeqCst);
+                NREL.store(nr, Ordering::SeqCst);
+                match r { Ok(x) => Ok(x), Err(p) => Err(p) }
             }
             "composite" => {
                 let f = sval(op, 2).to_string();
@@ -687,6 +738,7 @@ pub fn run_case(case: &Value, probe: bool, progress: *mut u32) -> Vec<Value> {
             }
         }
         for hh in 1..=2usize {
+            if wipe_only { break; }
             if let Some(r) = &slots[hh].reg {
                 let (w, pm, lm) = r.state();
                 if pm == "NA" && w != "Plain" {
@@ -783,7 +835,7 @@ pub fn run_case(case: &Value, probe: bool, progress: *mut u32) -> Vec<Value> {
             }
         }
         // ---- fault probes without the model (drift mode): what the TYPE says must be what an access to the data experiences
-        if probe && drift.is_some() {
+        if probe && drift.is_some() && !wipe_only {
             for hh in 1..=2usize {
                 if let Some(r) = &slots[hh].reg {
                     let (w, pm, _lm) = r.state();
@@ -845,6 +897,7 @@ pub fn run_case(case: &Value, probe: bool, progress: *mut u32) -> Vec<Value> {
     let maps = smaps();
     let al = allocs();
     for (ai, (addr, size)) in al.iter().enumerate() {
+        if wipe_only { break; }
         let np = (size + (pg - size % pg)) / pg + 2;
         let lo = addr - pg;
         // later allocations may have reused the block; whatever is mapped there now must be clean
@@ -867,9 +920,10 @@ pub fn run_case(case: &Value, probe: bool, progress: *mut u32) -> Vec<Value> {
         }
     }
     let lck1 = vmlck_kb();
-    if lck1 != lck0 {
+    if lck1 != lck0 && !wipe_only {
         fails.push(json!({"key": "residue after the last drop: VmLck not back to baseline", "step": steps.len(), "op": ["final"], "info": {"before_kb": lck0, "after_kb": lck1}}));
     }
+    if wipe_only { drift = None; }
     if let Some(d) = drift {
         fails.push(json!({"key": "DRIFT: the code's allocation behaviour no longer follows Protected.tla", "step": d["step"], "op": d["op"], "info": d}));
     }
